@@ -37,7 +37,8 @@ MIN_DISTINCT = {'quick': 150, 'thorough': 3000}
 
 ALPHABET = ['', ':', '\\', 'a', 'é', '::', '\\:', ':\\']
 NS_POOL = [(), ('a',), ('a', 'b'), ('',), ('', ''), (':',), ('a:b',), ('é', ':x'), ('b', 'a'), ('::', 'a')]
-KEYS = ['k', 'k2', '', 'ключ', 'a:b']
+# ('a',)/'b' vs ()/'a:b' and ('a','b')/'k' vs ('a',)/'b:k' would collide in any scheme that joins namespace and key
+KEYS = ['k', 'k2', '', 'ключ', 'a:b', 'b', 'b:k']
 STR_VALUES = ['v1', 'v2', '', 'x:y', 'é']
 
 
